@@ -343,7 +343,6 @@ package block
 //@   observe vl := call Validate
 //@   observe bf := call Before
 //@   observe cbk := call createBlock
-//@   observe sbd1 := call SaveBlockData@1
 //@   observe apb := call applyBlock
 //@   observe gsig := call GetSignature
 //@   modifies m.lastState, m.lastBatchData, m.headerCache.seen,
@@ -400,7 +399,7 @@ package block
 //@                       ==> m.store.has[old(m.store.height) + 1] && m.store.txsAt[old(m.store.height) + 1] == TxsId(rb.res0.Batch.Transactions)
 // C04/C11: a new block is in the store before it is executed - the executor commits the block's effects to its own
 // database, and a crash after that commit must find the block (and with it the taken batch) on restart
-//@   ensures [saved-before-executed] apb ==> old(m.store.has[m.store.height + 1]) || (sbd1 && sbd1.seq < apb.seq)
+//@   at call applyBlock [saved-before-executed] m.store.has[m.store.height + 1]
 //@   ensures [taken-batch-kept] rb && rb.res1 == nil ==> m.store.has[old(m.store.height) + 1] && m.store.txsAt[old(m.store.height) + 1] == TxsId(rb.res0.Batch.Transactions)
 //@   crash_inv [taken-batch-kept] rb && rb.res1 == nil ==> m.store.has[old(m.store.height) + 1] && m.store.txsAt[old(m.store.height) + 1] == TxsId(rb.res0.Batch.Transactions)
 //@   crash_inv [height-not-ahead] m.store.hasState && m.store.height <= m.store.stateAt.lastBlockHeight
